@@ -782,9 +782,13 @@ pub fn run_tx(line: &str) -> String {
         let mut close = "-".to_string();
         let conn_up = !base.pipe.eof && !base.closed;
         let mut panic = false;
+        let mut utags: Vec<String> = Vec::new();
         if app_finished {
             match app.await {
                 Ok(sender) => {
+                    // what the link still holds as unsettled: a send that was dropped before its transfer left must not stay here
+                    // (it would be reported as unsettled on a resume and sent again)
+                    utags = fe2o3_amqp::verif::sender_unsettled_tags(&sender).into_iter().map(|t| tag_show(&Some(t))).collect();
                     // an orderly close of the link: nothing of a delivery may be left unfinished by then
                     let ct = tokio::spawn(async move { sender.close().await });
                     for _ in 0..200 {
@@ -826,7 +830,7 @@ pub fn run_tx(line: &str) -> String {
             .map(|d| format!("{},{},{},{},{:016x},{},{}", opt_u32(d.did), tag_show(&d.tag), d.frames, d.len, d.hash, d.status, if d.settled { 's' } else { 'u' }))
             .collect();
         format!(
-            "S: {} | W: {} | X: {} | F: {} | E: conn={} app={} granted={} close={} unsettled={} events={}{}",
+            "S: {} | W: {} | X: {} | F: {} | E: conn={} app={} granted={} close={} unsettled={} utags={} events={}{}",
             sends.join(" ; "),
             wire.join(" ; "),
             interleaved.join(","),
@@ -836,6 +840,7 @@ pub fn run_tx(line: &str) -> String {
             granted,
             close,
             if awaiting_settle.is_empty() { "-".to_string() } else { awaiting_settle.iter().map(|x| x.to_string()).collect::<Vec<_>>().join("+") },
+            if utags.is_empty() { "-".to_string() } else { utags.join("+") },
             base.link_events.join(","),
             if panic { " PANIC" } else { "" }
         )
@@ -928,6 +933,20 @@ pub fn oracle_tx(line: &str, trace: &str) -> Vec<String> {
                 "c16-send-partial: delivery id={} tag={} was begun ({} frame(s), {} bytes, more=true) and never finished",
                 w.did, w.tag, w.frames, w.len
             ));
+        }
+    }
+    // ---- a delivery the link holds as unsettled although nothing of it ever left ----
+    let utags = field(&ew, "utags");
+    // (a call that is still in progress - stalled behind a full channel - legitimately has its entry already)
+    let all_returned = sends.iter().all(|s| s.res.starts_with("ok") || s.res == "cancel");
+    if utags != "-" && !utags.is_empty() && all_returned {
+        for t in utags.split('+') {
+            if !wire.iter().any(|w| w.tag == t) {
+                v.push(format!(
+                    "c16-send-dropped-left-unsettled: the link still holds tag {} as unsettled although no transfer with that tag was ever written: a resume would report it and the message would be sent again",
+                    t
+                ));
+            }
         }
     }
     // ---- corrupted / duplicated / lost / reordered ----
